@@ -125,6 +125,12 @@ Fixpoint find_member (fuel : nat) (st : state) (c : obj) (n : name) : option obj
     end
   end.
 
+Definition find_for (st : state) (o : obj) (n : name) : option obj :=
+  match o_kind o with
+  | KClass => find_member (length (objs st)) st o n
+  | _ => None
+  end.
+
 (* Documentable.expandName: the loop `for i, p in enumerate(parts)`; [first] is (i == 0). *)
 Fixpoint expand_from (st : state) (o : obj) (first : bool) (parts : list name) : path :=
   match parts with
@@ -134,12 +140,9 @@ Fixpoint expand_from (st : state) (o : obj) (first : bool) (parts : list name) :
     let notfound := path_eqb fn [p] && negb first in
     let fn1 :=
       if notfound then
-        match o_kind o with
-        | KClass => match find_member (length (objs st)) st o p with
-                    | Some inh => o_path inh
-                    | None => fn
-                    end
-        | _ => fn
+        match find_for st o p with                       (* `if isinstance(obj, Class): inherited = obj.find(p)` *)
+        | Some inh => o_path inh
+        | None => fn
         end
       else fn in
     if notfound && path_eqb fn1 [p] then (o_path o ++ [p]) ++ rest      (* break *)
